@@ -21,11 +21,14 @@ import (
 	"embed"
 	"encoding/base64"
 	"fmt"
+	"io"
 	"math/big"
 	mrand "math/rand"
 	"os"
 	"path/filepath"
+	"strconv"
 	"strings"
+	"testing/iotest"
 	"time"
 
 	"github.com/miekg/dns"
@@ -478,14 +481,24 @@ var rrset = []dns.RR{
 }
 
 type handle struct {
-	k    *realKey // the key pair this private key belongs to
-	priv crypto.PrivateKey
-	imp  bool
+	k      *realKey // the key pair this private key belongs to
+	priv   crypto.PrivateKey
+	imp    bool
+	relaid bool // read from a text that came back from a store in another layout (KeyLife17!Relay)
 }
 
 type text struct {
-	s string
-	k *realKey
+	s      string
+	k      *realKey
+	relaid bool
+}
+
+// pfx: finding keys of operations on relaid texts / handles read from them are classes of their own
+func pfx(relaid bool) string {
+	if relaid {
+		return "keylife/relaid-"
+	}
+	return "keylife/"
 }
 
 type klRun struct {
@@ -509,80 +522,173 @@ func (r *klRun) gen(id int) (bad, what string) {
 		return bad, what
 	}
 	r.keys[id] = k
-	r.hs = append(r.hs, handle{k, k.priv, false})
+	r.hs = append(r.hs, handle{k, k.priv, false, false})
 	return "", ""
 }
 
 func (r *klRun) provide(id int) {
 	r.keys[id], _, _ = r.kl.key(r.c, id, "ext", r.fresh)
-	r.texts = append(r.texts, text{r.keys[id].text, r.keys[id]})
+	r.texts = append(r.texts, text{r.keys[id].text, r.keys[id], false})
 }
 
-func (r *klRun) export(h int) bool {
-	s := r.hs[h-1].k.pub.PrivateKeyString(r.hs[h-1].priv)
-	if s == "" {
-		return false
+// Every call into the library below goes through hx.Catch: a panic of the library on an input the
+// specification chose is an observation about the library ("panics"), never a dead harness.
+// bad: "" | "fails" | "panics".
+
+func (r *klRun) export(h int) (bad, what string) {
+	var s string
+	if p := hx.Catch(func() { s = r.hs[h-1].k.pub.PrivateKeyString(r.hs[h-1].priv) }); p != "" {
+		return "panics", p
 	}
-	r.texts = append(r.texts, text{s, r.hs[h-1].k})
-	return true
+	if s == "" {
+		return "fails", "PrivateKeyString returned nothing"
+	}
+	r.texts = append(r.texts, text{s, r.hs[h-1].k, r.hs[h-1].relaid})
+	return "", ""
 }
 
-// imp reads a text back.  differs != "": the imported key, exported again, is not the key of the text.
-func (r *klRun) imp(t int, api string) (err error, differs string) {
+// relay: text t comes back from a store as the text s (another layout of the same fields)
+func (r *klRun) relay(t int, s string) {
+	r.texts = append(r.texts, text{s, r.texts[t-1].k, true})
+}
+
+// kindOf: which of the specification's templates fits the texts of this combination
+func (c combo) kindOf() string {
+	switch c.alg {
+	case dns.RSASHA1, dns.RSASHA1NSEC3SHA1, dns.RSASHA256, dns.RSASHA512:
+		return "rsa"
+	}
+	return "ec"
+}
+
+// instantiate puts the values of the text orig into a template of the specification (Dnssec17!KFTemplate):
+// -1 = the value orig has for the field named on that line (Algorithm: the number), -2 = the algorithm mnemonic.
+func instantiate(tpl []int, orig string, alg uint8) string {
+	if len(tpl) == 0 {
+		hx.Die("relay without a template")
+	}
+	f := parsePrivate(orig)
+	var b []byte
+	line := 0 // where the current line starts in b
+	for _, x := range tpl {
+		switch {
+		case x == -1:
+			name, _, ok := strings.Cut(string(b[line:]), ":")
+			v, have := f[strings.ToLower(name)]
+			if !ok || !have {
+				hx.Die("template names the field %q, the text has none", name)
+			}
+			if strings.EqualFold(name, "algorithm") {
+				v, _, _ = strings.Cut(v, " ")
+			}
+			b = append(b, v...)
+		case x == -2:
+			b = append(b, dns.AlgorithmToString[alg]...)
+		case x >= 0 && x <= 255:
+			b = append(b, byte(x))
+			if x == '\n' {
+				line = len(b)
+			}
+		default:
+			hx.Die("template element %d", x)
+		}
+	}
+	return string(b)
+}
+
+// readerFor: the ways a text reaches ReadPrivateKey (KeyLife17!Apis)
+func readerFor(api, s string) io.Reader {
+	switch api {
+	case "read": // an io.ByteReader: the library reads octet by octet from it
+		return strings.NewReader(s)
+	case "readplain": // no ReadByte (a file, a pipe): the library puts its own buffer in front
+		return struct{ io.Reader }{strings.NewReader(s)}
+	case "read1": // one octet per Read
+		return iotest.OneByteReader(strings.NewReader(s))
+	case "readeof": // the last octets arrive together with io.EOF
+		return iotest.DataErrReader(strings.NewReader(s))
+	}
+	hx.Die("unknown import api %q", api)
+	return nil
+}
+
+// imp reads a text back.  differs != "": the imported key, exported again, is not the key of the text
+// (reexp: that second export; "panics" in differs: it panicked).
+func (r *klRun) imp(t int, api string) (bad, what, differs, reexp string) {
 	x := r.texts[t-1]
 	var p crypto.PrivateKey
-	if api == "new" {
-		p, err = x.k.pub.NewPrivateKey(x.s)
-	} else {
-		p, err = x.k.pub.ReadPrivateKey(strings.NewReader(x.s), "exported.private")
+	var err error
+	if pan := hx.Catch(func() {
+		if api == "new" {
+			p, err = x.k.pub.NewPrivateKey(x.s)
+		} else {
+			p, err = x.k.pub.ReadPrivateKey(readerFor(api, x.s), "exported.private")
+		}
+	}); pan != "" {
+		return "panics", pan, "", ""
 	}
 	if err == nil && p == nil {
 		err = fmt.Errorf("no key and no error")
 	}
 	if err != nil {
-		return err, ""
+		return "fails", err.Error(), "", ""
 	}
-	r.hs = append(r.hs, handle{x.k, p, true})
-	a, b := parsePrivate(x.s), parsePrivate(x.k.pub.PrivateKeyString(p))
+	r.hs = append(r.hs, handle{x.k, p, true, x.relaid})
+	if pan := hx.Catch(func() { reexp = x.k.pub.PrivateKeyString(p) }); pan != "" {
+		return "", "", "panics: " + pan, ""
+	}
+	a, b := parsePrivate(x.s), parsePrivate(reexp)
 	for _, f := range []string{"algorithm", "modulus", "publicexponent", "privateexponent", "prime1", "prime2", "exponent1", "exponent2", "coefficient", "privatekey"} {
-		if a[f] != b[f] {
-			return nil, fmt.Sprintf("field %s: read %q, written again as %q", f, a[f], b[f])
+		va, vb := a[f], b[f]
+		if f == "algorithm" { // the number; the mnemonic after it is a comment
+			va, _, _ = strings.Cut(va, " ")
+			vb, _, _ = strings.Cut(vb, " ")
+		}
+		if va != vb {
+			return "", "", fmt.Sprintf("field %s: read %q, written again as %q", f, a[f], b[f]), reexp
 		}
 	}
-	return nil, ""
+	return "", "", "", reexp
 }
 
-func (r *klRun) sign(h int) error {
+func (r *klRun) sign(h int) (bad, what string) {
 	x := r.hs[h-1]
 	sg, ok := x.priv.(crypto.Signer)
 	if !ok {
-		return fmt.Errorf("private key of type %T cannot sign", x.priv)
+		return "fails", fmt.Sprintf("private key of type %T cannot sign", x.priv)
 	}
 	now := uint32(time.Now().Unix())
 	sig := &dns.RRSIG{Hdr: dns.RR_Header{Name: "www.key.example.", Rrtype: dns.TypeRRSIG, Class: dns.ClassINET, Ttl: 300},
 		Inception: now - 3600, Expiration: now + 3600, KeyTag: x.k.pub.KeyTag(), SignerName: x.k.pub.Hdr.Name, Algorithm: r.c.alg}
-	if err := sig.Sign(sg, rrset); err != nil {
-		return err
+	var err error
+	if pan := hx.Catch(func() { err = sig.Sign(sg, rrset) }); pan != "" {
+		return "panics", pan
+	}
+	if err != nil {
+		return "fails", err.Error()
 	}
 	r.sigs, r.signer = append(r.sigs, sig), append(r.signer, x)
-	return nil
+	return "", ""
 }
 
 // signClass: parameter class of a failed signing, for the finding key
-func (r *klRun) signClass(h int) string {
-	if r.hs[h-1].k.pub.KeyTag() == 0 {
+func (r *klRun) signClass(h int, bad string) string {
+	if bad == "fails" && r.hs[h-1].k.pub.KeyTag() == 0 {
 		return "keytag0"
 	}
-	return "other"
+	return bad
 }
 
 // verify under the DNSKEY of identity id; the key tag of the signature is set to that key's, so that the key
 // material decides, not the tag comparison
-func (r *klRun) verify(id, s int) bool {
+func (r *klRun) verify(id, s int) (ok bool, panicked string) {
 	pub := r.keys[id].pub
 	forged := *r.sigs[s-1]
 	forged.KeyTag = pub.KeyTag()
-	return forged.Verify(pub, rrset) == nil && (r.sigs[s-1].KeyTag != pub.KeyTag() || r.sigs[s-1].Verify(pub, rrset) == nil)
+	panicked = hx.Catch(func() {
+		ok = forged.Verify(pub, rrset) == nil && (r.sigs[s-1].KeyTag != pub.KeyTag() || r.sigs[s-1].Verify(pub, rrset) == nil)
+	})
+	return ok, panicked
 }
 
 // ------------------------------------------------------------------ replay of TLC behaviours
@@ -600,45 +706,81 @@ func (kl *keyLife) behaviour(v *vec, c combo, fresh bool, sum *hx.Summary) {
 		case "provide":
 			r.provide(o.Key)
 		case "export":
-			if !r.export(o.H) {
-				sum.Mis("keylife/export-empty:"+alg, "PrivateKeyString returned nothing", v)
+			if bad, what := r.export(o.H); bad != "" {
+				k := "keylife/export-" + bad + ":" + alg
+				if bad == "fails" {
+					k = "keylife/export-empty:" + alg
+				}
+				sum.Mis(k, "PrivateKeyString: "+what, v)
 				return
 			}
+		case "relay":
+			tpl := o.Ec
+			if c.kindOf() == "rsa" {
+				tpl = o.Rsa
+			}
+			r.relay(o.T, instantiate(tpl, r.texts[o.T-1].s, c.alg))
 		case "import":
-			err, differs := r.imp(o.T, o.Api)
-			if err != nil {
-				sum.Mis("keylife/import-fails:"+alg, fmt.Sprintf("%s of a private-key text for this DNSKEY: %v", o.Api, err), v)
+			rel := r.texts[o.T-1].relaid
+			bad, what, differs, _ := r.imp(o.T, o.Api)
+			if bad != "" {
+				sum.Mis(pfx(rel)+"import-"+bad+":"+alg, fmt.Sprintf("%s of a private-key text for this DNSKEY: %s%s", o.Api, what, layoutNote(r.texts[o.T-1])), v)
 				return
 			}
 			if differs != "" {
-				sum.Mis("keylife/reexport-differs:"+alg, differs, v)
+				k := pfx(rel) + "reexport-differs:" + alg
+				if strings.HasPrefix(differs, "panics: ") {
+					k = pfx(rel) + "reexport-panics:" + alg
+				}
+				sum.Mis(k, fmt.Sprintf("%s, then PrivateKeyString: %s%s", o.Api, differs, layoutNote(r.texts[o.T-1])), v)
+				if strings.HasPrefix(differs, "panics: ") {
+					return
+				}
 			}
 		case "sign":
-			if err := r.sign(o.H); err != nil {
-				k := "keylife/sign-fails:" + alg
-				if r.hs[o.H-1].imp {
+			if bad, what := r.sign(o.H); bad != "" {
+				h := r.hs[o.H-1]
+				k := pfx(h.relaid) + "sign-" + bad + ":" + alg
+				if h.imp && !h.relaid && bad == "fails" {
 					k = "keylife/sign-fails-imported:" + alg
 				}
-				if r.hs[o.H-1].k.pub.KeyTag() == 0 { // one key in 65536: its own class
+				if bad == "fails" && h.k.pub.KeyTag() == 0 { // one key in 65536: its own class
 					k = "keylife/sign-refuses-keytag-0"
 				}
-				sum.Mis(k, fmt.Sprintf("RRSIG.Sign: %v", err), v)
+				sum.Mis(k, "RRSIG.Sign: "+what, v)
 				return
 			}
 		case "verify":
-			ok := r.verify(o.Key, o.S)
+			ok, pan := r.verify(o.Key, o.S)
+			sg := r.signer[o.S-1]
+			if pan != "" {
+				sum.Mis(pfx(sg.relaid)+"verify-panics:"+alg, "RRSIG.Verify: "+pan, v)
+				return
+			}
 			if o.Ok && !ok {
-				k := "keylife/verify-rejects-own-key:" + alg
-				if r.signer[o.S-1].imp {
-					k = "keylife/verify-rejects-imported-key:" + alg
+				k := pfx(sg.relaid) + "verify-rejects-own-key:" + alg
+				if sg.imp {
+					k = pfx(sg.relaid) + "verify-rejects-imported-key:" + alg
 				}
 				sum.Mis(k, "signature does not verify under the key it descends from", v)
 			}
 			if !o.Ok && ok {
-				sum.Mis("keylife/verify-accepts-other-key:"+alg, "signature verifies under a different key", v)
+				sum.Mis(pfx(sg.relaid)+"verify-accepts-other-key:"+alg, "signature verifies under a different key", v)
 			}
 		}
 	}
+}
+
+// layoutNote: for the one-line description of a finding, how a relaid text ended
+func layoutNote(t text) string {
+	if !t.relaid {
+		return ""
+	}
+	n := len(t.s)
+	if n > 24 {
+		n = 24
+	}
+	return fmt.Sprintf(" (text of %d octets in the layout of the relay operation, ending %q)", len(t.s), t.s[len(t.s)-n:])
 }
 
 func (kl *keyLife) replay(v *vec, sum *hx.Summary, seen map[string]bool) {
@@ -647,10 +789,10 @@ func (kl *keyLife) replay(v *vec, sum *hx.Summary, seen map[string]bool) {
 		count[o.Op]++
 	}
 	last := v.Ops[len(v.Ops)-1]
-	if kl.round == nil && count["gen"] == 1 && count["provide"] == 0 && count["import"] == 1 && len(v.Ops) == 5 && last.Ok && v.Ops[3].Op == "sign" && v.Ops[3].H == 2 {
+	if kl.round == nil && count["gen"] == 1 && count["provide"] == 0 && count["relay"] == 0 && count["import"] == 1 && len(v.Ops) == 5 && last.Ok && v.Ops[3].Op == "sign" && v.Ops[3].H == 2 {
 		kl.round = v
 	}
-	if kl.given == nil && count["gen"] == 0 && count["provide"] == 1 && count["import"] == 1 && len(v.Ops) == 4 && last.Ok {
+	if kl.given == nil && count["gen"] == 0 && count["provide"] == 1 && count["relay"] == 0 && count["import"] == 1 && len(v.Ops) == 4 && last.Ok {
 		kl.given = v
 	}
 	for _, c := range allCombos() {
@@ -728,10 +870,101 @@ type evKL struct {
 	Api string `json:"api"`
 	Ok  bool   `json:"ok"`
 	Alg string `json:"alg"` // the algorithm/size combination
-	// export / import / sign: the real call returned an error (the specification has no such outcome)
+	// export / import / sign / verify: the real call returned an error or panicked (the specification has no such outcome)
 	Failed   bool   `json:"failed"`
 	Err      string `json:"err"`
-	ErrClass string `json:"errclass"` // kl.gen: "fails" | "panics"; kl.sign: "keytag0" | "other"
+	ErrClass string `json:"errclass"` // "fails" | "panics"; kl.sign also: "keytag0"
+	// kl.relay: the layout the recorder chose, the text before and after (the specification checks that
+	// both have the same key fields: Dnssec17!KFSameKey)
+	Lay *layout `json:"lay,omitempty"`
+	Old hx.B    `json:"old,omitempty"`
+	New hx.B    `json:"new,omitempty"`
+	// kl.import that succeeded: the text read and what PrivateKeyString makes of the key read from it
+	// (the specification compares their key fields); ReexpPanic: that second export panicked
+	Text       hx.B   `json:"text,omitempty"`
+	Reexp      hx.B   `json:"reexp,omitempty"`
+	ReexpPanic string `json:"reexppanic"`
+}
+
+// layout: how the RECORDER re-writes a text (random, wider than the specification's layout universe;
+// whether the result still has the same key fields is judged by the trace specification, not trusted)
+type layout struct {
+	Fmt     string `json:"fmt"`
+	Timing  bool   `json:"timing"`
+	Mnem    bool   `json:"mnem"`
+	Blanks  []int  `json:"blanks"` // empty lines before line i (last entry: after the last line)
+	FinalNL bool   `json:"finalnl"`
+}
+
+func randLayout(rnd *mrand.Rand) *layout {
+	l := &layout{Fmt: []string{"v1.2", "v1.3", "v1.3"}[rnd.Intn(3)], Mnem: rnd.Intn(2) == 0, FinalNL: rnd.Intn(2) == 0}
+	l.Timing = l.Fmt == "v1.3" && rnd.Intn(2) == 0
+	l.Blanks = make([]int, 16)
+	if rnd.Intn(2) == 0 {
+		for i := range l.Blanks {
+			if rnd.Intn(4) == 0 {
+				l.Blanks[i] = 1 + rnd.Intn(2)
+			}
+		}
+	}
+	return l
+}
+
+func (l *layout) apply(orig string) string {
+	var lines []string
+	for _, ln := range strings.Split(orig, "\n") {
+		name, val, ok := strings.Cut(ln, ": ")
+		switch strings.ToLower(name) {
+		case "":
+			continue
+		case "private-key-format":
+			ln = name + ": " + l.Fmt
+		case "algorithm":
+			num, _, _ := strings.Cut(val, " ")
+			ln = name + ": " + num
+			if l.Mnem {
+				n, _ := strconv.Atoi(num)
+				ln += " (" + dns.AlgorithmToString[uint8(n)] + ")"
+			}
+		case "created", "publish", "activate":
+			continue
+		}
+		if !ok {
+			hx.Die("line %q of a private-key text is not a field", ln)
+		}
+		lines = append(lines, ln)
+	}
+	if l.Timing {
+		lines = append(lines, "Created: 20260924120000", "Publish: 20260924120000", "Activate: 20260924120000")
+	}
+	var b strings.Builder
+	bl := func(i int) {
+		if i < len(l.Blanks) {
+			b.WriteString(strings.Repeat("\n", l.Blanks[i]))
+		}
+	}
+	for i, ln := range lines {
+		bl(i)
+		b.WriteString(ln)
+		if i < len(lines)-1 {
+			b.WriteString("\n")
+		}
+	}
+	// after the last line: its LF if any empty line follows or the layout ends the text with one
+	tail := 0
+	if len(lines) < len(l.Blanks) {
+		tail = l.Blanks[len(lines)]
+	}
+	if tail > 0 || l.FinalNL {
+		b.WriteString("\n")
+	}
+	if tail > 0 {
+		b.WriteString(strings.Repeat("\n", tail-1))
+		if l.FinalNL {
+			b.WriteString("\n")
+		}
+	}
+	return b.String()
 }
 
 // a signature made during a key life, with everything the specification needs to rebuild the signed octets
@@ -771,10 +1004,12 @@ func (r *klRun) rrsigEvent() evRrsig {
 	if err != nil {
 		hx.Die("RRSIG signature is not base64: %v", err)
 	}
+	verified := false
+	hx.Catch(func() { verified = sig.Verify(h.k.pub, rrset) == nil }) // a panic: not verified
 	e := evRrsig{Ev: "rrsig", Combo: r.c.String(), Alg: int(sig.Algorithm), Flags: int(h.k.pub.Flags), Proto: int(h.k.pub.Protocol),
 		PubKey: hx.FromBytes(pk), Pub: describe(h.k.std), Owner: hx.FromString(rrset[0].Header().Name), Class: int(rrset[0].Header().Class),
 		Ttl: be32(sig.OrigTtl), Tc: int(sig.TypeCovered), Labels: int(sig.Labels), Exp: be32(sig.Expiration), Inc: be32(sig.Inception),
-		KeyTag: int(sig.KeyTag), Signer: hx.FromString(sig.SignerName), Sig: hx.FromBytes(sb), Verified: sig.Verify(h.k.pub, rrset) == nil}
+		KeyTag: int(sig.KeyTag), Signer: hx.FromString(sig.SignerName), Sig: hx.FromBytes(sb), Verified: verified}
 	for _, rr := range rrset {
 		e.Rdatas = append(e.Rdatas, hx.FromBytes(rr.(*dns.A).A.To4()))
 	}
@@ -798,7 +1033,7 @@ func (kl *keyLife) recordRun(rnd *mrand.Rand, w *hx.Writer, seen map[string]bool
 		maxKeys = 2 // two committed key pairs per size/exponent; one colliding pair
 	}
 	for s := 0; s < steps; s++ {
-		switch x := []int{0, 1, 1, 2, 2, 3, 4, 5, 5, 5}[rnd.Intn(10)]; {
+		switch x := []int{0, 1, 1, 2, 2, 3, 4, 5, 5, 5, 6, 6}[rnd.Intn(12)]; {
 		case len(r.hs)+len(r.texts) == 0 || (x == 0 && len(r.keys) < maxKeys):
 			id := len(r.keys) + 1
 			if c.providedOnly() || rnd.Intn(3) == 0 {
@@ -816,26 +1051,34 @@ func (kl *keyLife) recordRun(rnd *mrand.Rand, w *hx.Writer, seen map[string]bool
 			}
 		case x == 1 && len(r.hs) > 0:
 			i := 1 + rnd.Intn(len(r.hs))
-			if !r.export(i) {
-				w.Emit(evKL{Ev: "kl.export", H: i, Alg: alg, Failed: true, Err: "empty"})
+			if bad, what := r.export(i); bad != "" {
+				w.Emit(evKL{Ev: "kl.export", H: i, Alg: alg, Failed: true, Err: what, ErrClass: bad})
 				return
 			}
 			w.Emit(evKL{Ev: "kl.export", H: i, Alg: alg})
 			trace += "e"
+		case x == 6 && len(r.texts) > 0 && c.bits <= 2048: // the text comes back from a store in another layout
+			j := 1 + rnd.Intn(len(r.texts))
+			lay := randLayout(rnd)
+			old := r.texts[j-1].s
+			r.relay(j, lay.apply(old))
+			w.Emit(evKL{Ev: "kl.relay", T: j, Alg: alg, Lay: lay, Old: hx.FromString(old), New: hx.FromString(r.texts[len(r.texts)-1].s)})
+			trace += "r"
 		case (x == 2 || len(r.hs) == 0) && len(r.texts) > 0:
 			j := 1 + rnd.Intn(len(r.texts))
-			api := []string{"new", "read"}[rnd.Intn(2)]
-			if err, _ := r.imp(j, api); err != nil {
-				w.Emit(evKL{Ev: "kl.import", T: j, Api: api, Alg: alg, Failed: true, Err: err.Error()})
+			if r.texts[len(r.texts)-1].relaid && rnd.Intn(2) == 0 {
+				j = len(r.texts) // a copy that just came back is usually read
+			}
+			api := []string{"new", "read", "new", "read", "readplain", "read1", "readeof"}[rnd.Intn(7)]
+			if !emitc(w)(r.importEvent(j, api, alg)) {
 				seen["kl"+alg+trace+"I"] = true
 				return
 			}
-			w.Emit(evKL{Ev: "kl.import", T: j, Api: api, Alg: alg})
 			trace += "i"
 		case x <= 4 && len(r.hs) > 0:
 			i := 1 + rnd.Intn(len(r.hs))
-			if err := r.sign(i); err != nil {
-				w.Emit(evKL{Ev: "kl.sign", H: i, Alg: alg, Failed: true, Err: err.Error(), ErrClass: r.signClass(i)})
+			if bad, what := r.sign(i); bad != "" {
+				w.Emit(evKL{Ev: "kl.sign", H: i, Alg: alg, Failed: true, Err: what, ErrClass: r.signClass(i, bad)})
 				seen["kl"+alg+trace+"S"] = true
 				return
 			}
@@ -845,11 +1088,45 @@ func (kl *keyLife) recordRun(rnd *mrand.Rand, w *hx.Writer, seen map[string]bool
 		case len(r.sigs) > 0:
 			j := 1 + rnd.Intn(len(r.sigs))
 			id := 1 + rnd.Intn(len(r.keys))
-			w.Emit(evKL{Ev: "kl.verify", Key: id, S: j, Ok: r.verify(id, j), Alg: alg})
+			if !emitc(w)(r.verifyEvent(id, j, alg)) {
+				return
+			}
 			trace += "v"
 		}
 	}
 	seen["kl"+alg+trace] = true
+}
+
+func emitc(w *hx.Writer) func(evKL, bool) bool {
+	return func(e evKL, cont bool) bool { w.Emit(e); return cont }
+}
+
+// importEvent reads text j and describes what happened (cont: the run can go on)
+func (r *klRun) importEvent(j int, api, alg string) (e evKL, cont bool) {
+	bad, what, differs, reexp := r.imp(j, api)
+	e = evKL{Ev: "kl.import", T: j, Api: api, Alg: alg}
+	if bad != "" {
+		e.Failed, e.Err, e.ErrClass = true, what, bad
+		return e, false
+	}
+	if r.c.bits <= 2048 { // the 4096-bit texts would double the size of the trace
+		e.Text, e.Reexp = hx.FromString(r.texts[j-1].s), hx.FromString(reexp)
+	}
+	if strings.HasPrefix(differs, "panics: ") {
+		e.ReexpPanic = differs
+		return e, false
+	}
+	return e, true
+}
+
+func (r *klRun) verifyEvent(id, j int, alg string) (e evKL, cont bool) {
+	ok, pan := r.verify(id, j)
+	e = evKL{Ev: "kl.verify", Key: id, S: j, Ok: ok, Alg: alg}
+	if pan != "" {
+		e.Failed, e.Err, e.ErrClass = true, pan, "panics"
+		return e, false
+	}
+	return e, true
 }
 
 // rerunStep executes one recorded key-life event again (fresh result) and writes it
@@ -875,23 +1152,35 @@ func (kl *keyLife) rerunStep(r *klRun, e *anyEv, w *hx.Writer) *klRun {
 		r.provide(num(e.Key))
 		w.Emit(evKL{Ev: e.Ev, Key: num(e.Key), Alg: alg})
 	case "kl.export":
-		w.Emit(evKL{Ev: e.Ev, H: num(e.H), Alg: alg, Failed: !r.export(num(e.H))})
-	case "kl.import":
-		err, _ := r.imp(num(e.T), e.Api)
-		o := evKL{Ev: e.Ev, T: num(e.T), Api: e.Api, Alg: alg, Failed: err != nil}
-		if err != nil {
-			o.Err = err.Error()
+		bad, what := r.export(num(e.H))
+		w.Emit(evKL{Ev: e.Ev, H: num(e.H), Alg: alg, Failed: bad != "", Err: what, ErrClass: bad})
+	case "kl.relay":
+		if e.Lay == nil || num(e.T) < 1 || num(e.T) > len(r.texts) {
+			hx.Die("kl.relay event without layout / text")
 		}
-		w.Emit(o)
+		old := r.texts[num(e.T)-1].s
+		r.relay(num(e.T), e.Lay.apply(old))
+		w.Emit(evKL{Ev: e.Ev, T: num(e.T), Alg: alg, Lay: e.Lay, Old: hx.FromString(old), New: hx.FromString(r.texts[len(r.texts)-1].s)})
+	case "kl.import":
+		if num(e.T) > len(r.texts) { // an earlier step of the recorded run failed this time
+			hx.Die("kl.import of a text that does not exist in the rerun")
+		}
+		emitc(w)(r.importEvent(num(e.T), e.Api, alg))
 	case "kl.sign":
-		if err := r.sign(num(e.H)); err != nil {
-			w.Emit(evKL{Ev: e.Ev, H: num(e.H), Alg: alg, Failed: true, Err: err.Error(), ErrClass: r.signClass(num(e.H))})
+		if num(e.H) > len(r.hs) {
+			hx.Die("kl.sign with a handle that does not exist in the rerun")
+		}
+		if bad, what := r.sign(num(e.H)); bad != "" {
+			w.Emit(evKL{Ev: e.Ev, H: num(e.H), Alg: alg, Failed: true, Err: what, ErrClass: r.signClass(num(e.H), bad)})
 			return r
 		}
 		w.Emit(evKL{Ev: e.Ev, H: num(e.H), Alg: alg})
 		w.Emit(r.rrsigEvent())
 	case "kl.verify":
-		w.Emit(evKL{Ev: e.Ev, Key: num(e.Key), S: e.S, Ok: r.verify(num(e.Key), e.S), Alg: alg})
+		if e.S > len(r.sigs) {
+			hx.Die("kl.verify of a signature that does not exist in the rerun")
+		}
+		emitc(w)(r.verifyEvent(num(e.Key), e.S, alg))
 	}
 	return r
 }
